@@ -15,6 +15,10 @@ Request:
    "flow":[value..],
    "iter":{"sel":"all|int|none","bare":b,"pre":[value..],"post":[value..]},
    "map":{"steps":[Step..],"sel":..,"drop":b,"bare":b,"pre":[value..],"post":[value..]}}
+   optional: "inner":{"edges","getter","vc","spec","sel"} (two-level split: the analysis of a cell is
+   `FillComputeSeq(SplitIntoBins(spec, getter/vc, edges), IterateBins(sel))`), "twice":b (compute() twice),
+   iter: "ces":{"k":"default"|"bad"|"opts","names":[s..]|null,"pre","mid1","mid2","post","join","reverse"},
+   "sel" also "default"|"bad"; map: "seq_ok":b; values of pre/post may be histograms {"h":{"edges","bins"},"c":D|null}
 Reply:
   {"init":exc} | {"fill":{"at":k,"e":exc}}
   | {"cells":[[index, {"sum":i,"count":n,"stored":[value..],"last":D}]..],"cur":D,
@@ -150,32 +154,200 @@ partial def ofBins {β : Type} (f : β → Json) : NArr β → Json
   | .leaf v => f v
   | .node xs => Json.arr (xs.map (ofBins f)).toArray
 
-def ofExc : Option (Exc IErr) → Json
+def ofExcW {E : Type} (f : E → String) : Option (Exc E) → Json
   | none => Json.null
-  | some e => Json.str (excName e)
+  | some e => Json.str (excNameWith f e)
 
-def ofHist (h : Hist Int Val) : List (String × Json) :=
-  [("edges", ofEdges h.edges), ("bins", ofBins ofValue h.bins)]
+def ofHist {β : Type} (f : β → Json) (h : Hist Int β) : List (String × Json) :=
+  [("edges", ofEdges h.edges), ("bins", ofBins f h.bins)]
 
 def ofFVal : FVal Int V → Json
   | .plain v => Json.mkObj [("v", ofValue v)]
-  | .hist h c => Json.mkObj [("h", Json.mkObj (ofHist h)), ("c", ofOpt ofD c)]
+  | .hist h c => Json.mkObj [("h", Json.mkObj (ofHist ofValue h)), ("c", ofOpt ofD c)]
 
-def ofTrace {ρ : Type} (f : ρ → Json) (t : Trace ρ (Exc IErr)) : Json :=
-  Json.mkObj [("out", ofList f t.out), ("fin", ofExc t.fin)]
+def ofTraceW {ρ E : Type} (fe : E → String) (f : ρ → Json) (t : Trace ρ (Exc E)) : Json :=
+  Json.mkObj [("out", ofList f t.out), ("fin", ofExcW fe t.fin)]
 
 def ofAcc (s : AccState) : Json :=
   Json.mkObj [("sum", ofInt s.sum), ("count", ofNat s.count), ("stored", ofList ofValue s.stored),
     ("last", ofD s.lastCtx)]
 
+def ofCells {σ : Type} (f : σ → Json) (bins : NArr σ) : Json :=
+  ofList (fun (p : List Nat × σ) => Json.arr #[ofList ofNat p.1, f p.2]) (NArr.cells bins)
+
+def ofInnerSIB (s : SIB Int AccState) : Json :=
+  Json.mkObj [("cells", ofCells ofAcc s.bins), ("cur", ofD s.curContext)]
+
+partial def toBins (j : Json) : Option (NArr Val) :=
+  match j with
+  | .arr a => (a.toList.mapM toBins).map NArr.node
+  | _ => (toValue j).map NArr.leaf
+
+/-- a value of a stage's flow: a plain value or a histogram `{"h":{"edges":E,"bins":B},"c":D|null}` -/
+def toFVal (j : Json) : Option (FVal Int V) :=
+  let hj := getD j "h"
+  if hj.isNull then (toValue j).map FVal.plain
+  else do
+    let e ← toEdges (getD hj "edges")
+    let b ← toBins (getD hj "bins")
+    let c := getD j "c"
+    if c.isNull then pure (.hist ⟨e, b⟩ none) else (toD c).map (fun d => FVal.hist ⟨e, b⟩ (some d))
+
+def toFVals (j : Json) : Option (List (FVal Int V)) := do
+  let a ← arr? j
+  a.toList.mapM toFVal
+
 /-- the flow that the second stage sees: extra values, the histograms of the first stage (with or
 without their context), extra values -/
 def stageFlow (j : Json) (hists : List (Hist Int Val × Slots)) : Option (List (FVal Int V)) := do
-  let pre ← toValues (getD j "pre")
-  let post ← toValues (getD j "post")
+  let pre ← toFVals (getD j "pre")
+  let post ← toFVals (getD j "post")
   let bare := (bool? (getD j "bare")).getD false
-  pure (pre.map FVal.plain ++ hists.map (fun p => FVal.hist p.1 (if bare then none else some p.2))
-    ++ post.map FVal.plain)
+  pure (pre ++ hists.map (fun p => FVal.hist p.1 (if bare then none else some p.2)) ++ post)
+
+/-- `create_edges_str`: the default `cell_to_string`, or `functools.partial(cell_to_string, **opts)` -/
+def toCes (names : List String) (j : Json) : Option (List (Int × Int) → Option V → Except (Exc IErr) V) :=
+  match str? (getD j "k") with
+  | some "default" => some (cellToString names fmtInt)
+  | some "const" => (str? (getD j "s")).map (fun c => fun _ _ => .ok (.str c))
+  | some "opts" => do
+    let cn := getD j "names"
+    let cn ← if cn.isNull then pure none else do
+      let a ← arr? cn
+      let l ← a.toList.mapM str?
+      pure (some l)
+    let o : CtsOpts := {
+      coordNames := cn
+      fmtPre := (str? (getD j "pre")).getD ""
+      fmtMid1 := (str? (getD j "mid1")).getD "_lte_"
+      fmtMid2 := (str? (getD j "mid2")).getD "_lt_"
+      fmtPost := (str? (getD j "post")).getD ""
+      join := (str? (getD j "join")).getD "_"
+      reverse := (bool? (getD j "reverse")).getD false }
+    pure (cellToStringOpts names fmtInt o)
+  | _ => none
+
+/-- everything the generic part of the driver needs to know about the analysis that is split -/
+structure Kit (σ ρ E : Type) where
+  an : Analysis σ V ρ E
+  init : Option σ
+  ofCell : σ → Json
+  ofRes : ρ → Json
+  errName : E → String
+  toVal : ρ → Option Val
+
+def binsToVals {ρ : Type} (f : ρ → Option Val) (b : NArr ρ) : Option (NArr Val) :=
+  match mdMapE (fun r => match f r with | some v => Except.ok v | none => Except.error ()) () () b with
+  | .ok r => some r
+  | .error _ => none
+
+def ofRoute {E : Type} (fe : E → String) : Except (Exc E) (Option (List Nat)) → Json
+  | .error e => Json.mkObj [("e", Json.str (excNameWith fe e))]
+  | .ok none => Json.mkObj [("p", Json.null)]
+  | .ok (some p) => Json.mkObj [("p", ofList ofNat p)]
+
+def allPairs (l : List (List Nat)) : Bool :=
+  match l with
+  | a :: b :: r => lexLtB a b && allPairs (b :: r)
+  | _ => true
+
+def coordsOf : Lena.C06.Coord Int → List Int
+  | .scalar x => [x]
+  | .tuple xs => xs
+
+/-- the specification vocabulary of `Props/C11.lean` evaluated on the case -/
+def specJson {σ ρ E : Type} (names : List String) (k : Kit σ ρ E) (av : ArgVar Int V E) (edges : Edges Int)
+    (s0 s : SIB Int σ) (flow : List Val) : Json :=
+  let dims := edges.axes.map (fun a => a.length - 1)
+  let paths := binIndices edges
+  let rt := fun v => route names av guessLo edges dims v
+  Json.mkObj [
+    ("route", ofList (fun v => ofRoute k.errName (rt v)) flow),
+    ("sub", ofList (fun p => ofList ofValue (subflow names av guessLo edges dims p flow)) paths),
+    ("inside", ofList ofValue (insideFlow names av guessLo edges dims flow)),
+    ("ctxafter", ofD (ctxAfter names av guessLo edges dims s0.curContext flow)),
+    ("paths", ofList (ofList ofNat) paths),
+    ("lex", Json.bool (allPairs paths)),
+    ("pathin", Json.bool (paths.all (fun p => pathInB p dims) && !(pathInB dims dims) &&
+       paths.all (fun p => (pathOf dims (p.map Int.ofNat)) == some p))),
+    ("incell", ofList (fun v =>
+        match av.getter (Lena.C14.getDataContext names v).1 with
+        | .error _ => Json.null
+        | .ok x => ofList (ofList ofNat) (paths.filter (fun p => inCellB edges.axes (coordsOf x) p))) flow),
+    ("celledges", ofList (fun p =>
+        match (cellEdges edges.axes p : Except (Exc E) (List (Int × Int))) with
+        | .error _ => Json.null
+        | .ok ce => Json.mkObj [("ok", Json.bool (isCellEdgesB edges.axes p ce)),
+            ("ce", ofList (fun (e : Int × Int) => Json.arr #[ofInt e.1, ofInt e.2]) ce)]) paths),
+    ("nn1", Json.bool (notNested1B edges)),
+    ("cellat", Json.bool (paths.all (fun p =>
+        match cellAt s.bins p, (NArr.cells s.bins).find? (fun q => q.1 == p) with
+        | some c, some q => (k.ofCell c).compress == (k.ofCell q.2).compress
+        | _, _ => false)))]
+
+def runKit {σ ρ E : Type} (names : List String) (j : Json) (k : Kit σ ρ E) (av : ArgVar Int V E)
+    (argOk : Bool) (edges : Edges Int) (flow : List Val) : Option Json := do
+  match (SIB.new names k.init argOk edges : Except (Exc E) (SIB Int σ)) with
+  | .error e => pure (Json.mkObj [("init", Json.str (excNameWith k.errName e))])
+  | .ok s0 =>
+    match SIB.fillAll names k.an av guessLo s0 flow with
+    | .error (i, e) =>
+      pure (Json.mkObj [("fill", Json.mkObj [("at", ofNat i), ("e", Json.str (excNameWith k.errName e))])])
+    | .ok s =>
+      let comp := SIB.compute names k.an av s
+      let ofH := fun (p : Hist Int ρ × Slots) => Json.mkObj (ofHist k.ofRes p.1 ++ [("c", ofD p.2)])
+      let compJ := ofTraceW k.errName ofH comp
+      let comp2J := if (bool? (getD j "twice")).getD false then
+          ofTraceW k.errName ofH (SIB.computeAgain names k.an av s) else Json.null
+      -- the histograms for the second stage: cells must be plain values
+      let hists : List (Hist Int Val × Slots) := comp.out.filterMap (fun p =>
+        (binsToVals k.toVal p.1.bins).map (fun b => (⟨p.1.edges, b⟩, p.2)))
+      let ij := getD j "iter"
+      let iterJ ← if ij.isNull then pure Json.null else do
+        let cesJ := getD ij "ces"
+        let cesBad := str? (getD cesJ "k") == some "bad"
+        let selS ← str? (getD ij "sel")
+        match (iterateBinsInit (!cesBad) (selS != "bad") : Except (Exc IErr) Unit) with
+        | .error e => pure (Json.mkObj [("init", Json.str (excName e))])
+        | .ok () =>
+          let sel ← toSel (Json.str (if selS == "default" then "none" else selS))
+          let ces ← toCes names cesJ
+          let fl ← stageFlow ij hists
+          let t := iterateBinsRun names sel.onData ces (encEdges V.int) fl
+          -- `iterate_bins_once`: the same through `cellOutput` for the first histogram
+          let once := match hists with
+            | [] => true
+            | (h, c) :: _ =>
+              let hctx := if (bool? (getD ij "bare")).getD false then none else some c
+              let a := iterateBinsOne names sel.onData ces (encEdges V.int) (FVal.hist h hctx)
+              let b := traceMapM (cellOutput names ces (encEdges V.int) (hctx.getD (Lena.C14.emptyD names.length)) h.edges.axes)
+                (NArr.cells h.bins)
+              !(sel.onData (Lena.C14.getDataContext names ((NArr.values h.bins).headD (.bare (.int 0)))).1) ||
+                (ofTraceW id ofFVal a).compress == (ofTraceW id ofFVal b).compress
+          pure (Json.mkObj [("out", ofList ofFVal t.out), ("fin", ofExcW id t.fin), ("once", Json.bool once)])
+      let mj := getD j "map"
+      let mapJ ← if mj.isNull then pure Json.null else do
+        let selS ← str? (getD mj "sel")
+        let seqOk := (bool? (getD mj "seq_ok")).getD true
+        match (mapBinsInit seqOk (selS != "bad") : Except (Exc IErr) Unit) with
+        | .error e => pure (Json.mkObj [("init", Json.str (excName e))])
+        | .ok () =>
+          let sel ← toSel (Json.str selS)
+          let steps ← toSteps (getD mj "steps")
+          let drop ← bool? (getD mj "drop")
+          let fl ← stageFlow mj hists
+          pure (ofTraceW id ofFVal (mapBinsRun names (seqStart names steps) (sel.onValue names) drop fl))
+      pure (Json.mkObj [("cells", ofCells k.ofCell s.bins), ("cur", ofD s.curContext), ("compute", compJ),
+        ("compute2", comp2J), ("iter", iterJ), ("map", mapJ),
+        ("spec", specJson names k av edges s0 s flow)])
+
+def toInner (j : Json) : Option Inner := do
+  let edges ← toEdges (getD j "edges")
+  let getter ← toGetter (getD j "getter")
+  let vc ← toD (getD j "vc")
+  let spec ← toSpec (getD j "spec")
+  let sel ← toSel (getD j "sel")
+  pure ⟨edges, getter, vc, spec, sel⟩
 
 def handleCase (j : Json) : Option Json := do
   let namesA ← arr? (getD j "names")
@@ -185,34 +357,28 @@ def handleCase (j : Json) : Option Json := do
   let argOk ← bool? (getD j "argvar_ok")
   let getter ← toGetter (getD j "getter")
   let vc ← toD (getD j "vc")
-  let spec ← toSpec (getD j "spec")
   let flow ← toValues (getD j "flow")
-  let an := spec.analysis names
-  let av := argVar getter vc
-  let seq : Option AccState := if seqOk then some (accInit names) else none
-  match (SIB.new names seq argOk edges : Except (Exc IErr) (SIB Int AccState)) with
-  | .error e => pure (Json.mkObj [("init", Json.str (excName e))])
-  | .ok s0 =>
-    match SIB.fillAll names an av guessLo s0 flow with
-    | .error (k, e) => pure (Json.mkObj [("fill", Json.mkObj [("at", ofNat k), ("e", Json.str (excName e))])])
-    | .ok s =>
-      let comp := SIB.compute names an av s
-      let cells := ofList (fun (p : List Nat × AccState) => Json.arr #[ofList ofNat p.1, ofAcc p.2]) (NArr.cells s.bins)
-      let compJ := ofTrace (fun (p : Hist Int Val × Slots) => Json.mkObj (ofHist p.1 ++ [("c", ofD p.2)])) comp
-      let ij := getD j "iter"
-      let iterJ ← if ij.isNull then pure Json.null else do
-        let sel ← toSel (getD ij "sel")
-        let fl ← stageFlow ij comp.out
-        pure (ofTrace ofFVal (iterateBinsRun names sel.onData (cellToString names fmtInt) (encEdges V.int) fl))
-      let mj := getD j "map"
-      let mapJ ← if mj.isNull then pure Json.null else do
-        let sel ← toSel (getD mj "sel")
-        let steps ← toSteps (getD mj "steps")
-        let drop ← bool? (getD mj "drop")
-        let fl ← stageFlow mj comp.out
-        pure (ofTrace ofFVal (mapBinsRun names (seqStart names steps) (sel.onValue names) drop fl))
-      pure (Json.mkObj [("cells", cells), ("cur", ofD s.curContext), ("compute", compJ),
-        ("iter", iterJ), ("map", mapJ)])
+  let innJ := getD j "inner"
+  if innJ.isNull then do
+    let spec ← toSpec (getD j "spec")
+    let k : Kit AccState Val IErr := {
+      an := spec.analysis names
+      init := if seqOk then some (accInit names) else none
+      ofCell := ofAcc, ofRes := ofValue, errName := id, toVal := some }
+    runKit names j k (argVar getter vc) argOk edges flow
+  else do
+    let inn ← toInner innJ
+    match inn.init names with
+    | .error e => pure (Json.mkObj [("init", Json.str (excName e))])
+    | .ok s0 =>
+      let k : Kit (SIB Int AccState) (FVal Int V) (Exc IErr) := {
+        an := inn.analysis names
+        init := if seqOk then some s0 else none
+        ofCell := ofInnerSIB, ofRes := ofFVal, errName := excName
+        toVal := fun fv => match fv with | .plain v => some v | .hist _ _ => none }
+      let av : ArgVar Int V (Exc IErr) :=
+        ⟨fun d => match getter.run d with | .ok x => .ok x | .error e => .error (.inner e), vc⟩
+      runKit names j k av argOk edges flow
 
 def handle (j : Json) : Json :=
   match str? (getD j "op") with
